@@ -119,6 +119,13 @@ func New(
 			s.logger.Infof("failed to verify incoming vote: %v", err)
 			return
 		}
+		// The proposal's QC is valid. Record it as the high QC before voting, so that the QC
+		// reported in later timeouts is never lower than the QC of a block this replica voted for.
+		// advanceView above does not do this when the timeout rule ignores plain QCs (aggregate QCs).
+		if _, err := s.state.UpdateHighQC(proposal.Block.QuorumCert()); err != nil {
+			s.logger.Infof("failed to update high QC from proposal: %v", err)
+			return
+		}
 		err := s.voter.OnValidPropose(&proposal)
 		if err != nil {
 			s.logger.Info(err)
